@@ -1,5 +1,5 @@
 PROPS["C07"] = dict(
-    jobs=[job("histories", "c07_interrupts", cases={Q: 200, T: 20000}),
+    jobs=[job("histories", "c07_interrupts", cases={Q: 200, T: 10000}),
           job("wiring", "c07_interrupts", cases={Q: 40, T: 400}, mode="wiring", shards=4)],
     rule="histories of 400 single-stepped instruction boundaries on the real Teakra facade; before each step the harness "
          "feeds one instruction from a fixed pool (nop/inc/eint/dint/mov #imm,mod3|st0|st2/rep #n/br/cntx/reti/retic) at "
@@ -9,8 +9,8 @@ PROPS["C07"] = dict(
          "its documented IRQ bit. distinct_nontrivial = distinct (line entered, instruction after which it was entered, nesting depth, request previously held back by a mask?) + wiring sources",
     floors={Q: {"entries_line0": 1000, "entries_line1": 1000, "entries_line2": 1000, "entries_line3": 1000,
                 "steps_with_masked_request_held": 5000, "steps_inside_rep": 1000, "op_ack": 1000, "wiring_checked": 100},
-            T: {"entries_line0": 100000, "entries_line1": 100000, "entries_line2": 100000, "entries_line3": 100000,
-                "steps_with_masked_request_held": 500000, "steps_inside_rep": 100000, "op_ack": 100000, "wiring_checked": 1000}},
+            T: {"entries_line0": 50000, "entries_line1": 50000, "entries_line2": 50000, "entries_line3": 50000,
+                "steps_with_masked_request_held": 250000, "steps_inside_rep": 50000, "op_ack": 50000, "wiring_checked": 1000}},
     ready=True,
     technique="runtime monitoring: lock-step independent ICU/interrupt-core model against the single-stepped real emulator under random trigger/ack/route/mask histories",
     level_text="Exploration: seeded histories of trigger/acknowledge/route/mask/enable operations interleaved with instruction boundaries on the real facade; every step compared with an independent model of the statement.",
